@@ -1419,8 +1419,12 @@ impl<'a> Duo<'a> {
             Kind::KaFire => Input::KeepaliveTimerExpired,
             Kind::Open => Input::MessageReceived(self.open.clone()),
             Kind::Ka => Input::MessageReceived(bgp::Message::Keepalive),
-            Kind::Upd => Input::MessageReceived(bgp::Message::Update(bgp::Update::EndOfRib(Family::IPV4))),
-            Kind::Rr => Input::MessageReceived(bgp::Message::RouteRefresh { family: Family::IPV4 }),
+            Kind::Upd => {
+                Input::MessageReceived(bgp::Message::Update(bgp::Update::EndOfRib(Family::IPV4)))
+            }
+            Kind::Rr => Input::MessageReceived(bgp::Message::RouteRefresh {
+                family: Family::IPV4,
+            }),
             Kind::UpdSent => Input::UpdateSent,
         };
         // what the calling task gets back, applied to the calling task's timers whatever role it names
@@ -1443,12 +1447,15 @@ impl<'a> Duo<'a> {
         }
         let after = self.sides[i].drv;
         self.sides[i].judged += 1;
-        self.sides[i].oracle.judge(kind, st_before, st_after, &f, &before, &after, t, out);
+        self.sides[i]
+            .oracle
+            .judge(kind, st_before, st_after, &f, &before, &after, t, out);
         // a collision was resolved in this step?
         let busy = |s: State| matches!(s, State::OpenConfirm | State::Established);
         if kind == Kind::Open && st_before == State::OpenSent && busy(other_before) {
             let caller_survived = st_after == State::OpenConfirm;
-            self.collisions.push((i, caller_survived, other_before == State::Established));
+            self.collisions
+                .push((i, caller_survived, other_before == State::Established));
         }
         if down {
             self.end_task(i);
@@ -1460,7 +1467,10 @@ impl<'a> Duo<'a> {
         };
         if told {
             if self.want_trace {
-                self.trace.push(format!("t={} {:?}: told to close through its close channel", self.now, self.sides[o].role));
+                self.trace.push(format!(
+                    "t={} {:?}: told to close through its close channel",
+                    self.now, self.sides[o].role
+                ));
             }
             self.end_task(o);
         }
@@ -1479,7 +1489,16 @@ impl<'a> Duo<'a> {
                         return;
                     }
                     *budget -= 1;
-                    self.deliver(i, if fire == Fire::Hold { Kind::HoldFire } else { Kind::KaFire }, t, out);
+                    self.deliver(
+                        i,
+                        if fire == Fire::Hold {
+                            Kind::HoldFire
+                        } else {
+                            Kind::KaFire
+                        },
+                        t,
+                        out,
+                    );
                     fired = true;
                 }
             }
@@ -1614,7 +1633,14 @@ fn collisions(rep: &mut Report, params: &Params, depth: usize, t: &mut Tally) {
                         _ => {
                             rep.evals(run.judged_last);
                             if run.after_collision {
-                                let mut key = vec![0xC0, l as u8, (l >> 8) as u8, r as u8, (r >> 8) as u8, (remote_id > local_id) as u8];
+                                let mut key = vec![
+                                    0xC0,
+                                    l as u8,
+                                    (l >> 8) as u8,
+                                    r as u8,
+                                    (r >> 8) as u8,
+                                    (remote_id > local_id) as u8,
+                                ];
                                 key.extend_from_slice(&code);
                                 rep.nontrivial(fnv64(&key));
                             }
